@@ -1519,6 +1519,29 @@ pub mod net {
         }
     }
 
+    /// Harness only: a connected pair of simulated sockets without a listener:
+    /// (connecting side with local address `a`, accepting side with local address `b`).
+    pub fn verif_pair(a: SocketAddr, b: SocketAddr) -> (TcpStream, TcpStream) {
+        let (rt, _) = cur().expect("verif_pair needs a runtime");
+        let id = rt
+            .with(|g| {
+                g.conns.push(Conn {
+                    buf: [VecDeque::new(), VecDeque::new()],
+                    wclosed: [false, false],
+                    dropped: [false, false],
+                    addr: [a, b],
+                    nonblocking: [false, false],
+                    rtimeout: [None, None],
+                    refs: [1, 1],
+                    written: [vec![], vec![]],
+                    wlog: [vec![], vec![]],
+                });
+                g.conns.len() - 1
+            })
+            .expect("verif_pair: execution ended");
+        (TcpStream::Sim(SimEnd { rt: rt.clone(), conn: id, side: 0 }), TcpStream::Sim(SimEnd { rt, conn: id, side: 1 }))
+    }
+
     /// Harness only: make connects to `addr` hang until their timeout.
     pub fn verif_blackhole(addr: SocketAddr) {
         if let Some((rt, _)) = cur() {
